@@ -397,6 +397,10 @@ def run(ctx):
                    "through the saturating cast and is converted to T::MAX, a different integer", g.where(rb))
         ctx.floor("C08.N7 float->int->float exactness tests" + tag, len(rt), 6)
         check_mixed_orderings(ctx, prog, tag)
+        # ---- N10 (= C07.V3, after seed C08-7): a float reached through the integer / float order (`0 <= -0.0`) is
+        # compared with IEEE `==` first; a bit-pattern order (total_cmp) alone tells -0.0 from the integer 0
+        from .c07 import check_float_order_vs_equality
+        check_float_order_vs_equality(ctx, prog, tag, rule="C08.N10.float-order-agrees-with-float-equality", floor_name="C08.N10")
         # ---- N6
         check_narrow(ctx, prog, [(op, prog.fn(OPS + op)) for op in list(INT_TABLE) + ["neg", "div"] if prog.has_fn(OPS + op)], tag)
         # int_div: explicit zero check before checked_div_euclid is fine either way (checked returns None on 0)
